@@ -608,6 +608,117 @@ pub fn run_sync(c: &Case) -> Result<&'static str, Violation> {
     }
 }
 
+// ------------------------------------------------------------------------------------------------
+// UDP through the SOCKS5 relay: RFC 1928 section 7 wrapping both ways
+// ------------------------------------------------------------------------------------------------
+
+async fn udp_relay_case(v6: bool, payload_len: usize) -> Result<&'static str, Violation> {
+    let case = json!({"kind":"udp-relay","v6":v6,"payload_len":payload_len});
+    let mk = |sig: &str, what: String| Violation::new(format!("C15:udp-relay:{sig}:{}", if v6 { "v6" } else { "v4" }), what, case.clone());
+    let mach = |e: String| Violation::new("C15:machinery", e, json!({}));
+    let socks = tokio::net::TcpListener::bind("127.0.0.1:0").await.map_err(|e| mach(e.to_string()))?;
+    let relay = tokio::net::UdpSocket::bind("127.0.0.1:0").await.map_err(|e| mach(e.to_string()))?;
+    let relay_addr = relay.local_addr().unwrap();
+    let cfg = Cfg { socks5: Some((socks.local_addr().unwrap(), false)), clients: vec![("u".into(), "p".into())], ..Cfg::default() };
+    let world = make_world_with_auth(&cfg, Some(Arc::new(RegistryBasedAuthenticator::new(&[Client { username: "u".into(), password: "p".into() }])))).map_err(mach)?;
+    let peer: SocketAddr = "198.51.100.7:40000".parse().unwrap();
+    let (io, d) = door::open(&world.ctx, VProtocol::Http2, "m.t", None, peer, 1 << 16);
+    let mut cl = H2Client::connect(io).await.map_err(mach)?;
+    let spec = ReqSpec::connect("_udp2").with_auth(Some(b"Basic dTpw".to_vec()));
+    let mut st = cl.request(spec.h2_request().map_err(mach)?, false).await.map_err(mach)?;
+    let dst: SocketAddr = if v6 { "[2606:2800:220:1::1]:4000".parse().unwrap() } else { "93.184.216.34:4000".parse().unwrap() };
+    let src: SocketAddr = "10.1.2.3:5000".parse().unwrap();
+    let payload: Vec<u8> = (0..payload_len).map(|i| (i % 251) as u8).collect();
+    let mut controls = vec![];
+    let mut status = None;
+    let mut sent = false;
+    let mut from_endpoint: Option<(Vec<u8>, SocketAddr)> = None;
+    let t0 = std::time::Instant::now();
+    while t0.elapsed() < Duration::from_secs(5) && from_endpoint.is_none() {
+        {
+            let mut acc = Box::pin(socks.accept());
+            if let Some(Ok((s, _))) = door::poll_once(&mut acc).await {
+                drop(acc);
+                if let Some(s) = super::c09::socks_control(s, relay_addr).await {
+                    controls.push(s);
+                }
+            }
+        }
+        if status.is_none() {
+            if let H2Outcome::Response(r) = st.response(Duration::from_millis(5)).await {
+                status = Some(r.status);
+                if r.status != 200 {
+                    return Err(mk("mux-refused", format!("CONNECT _udp2 through a SOCKS5 upstream answered {}", r.status)));
+                }
+            }
+        }
+        if status == Some(200) && !sent {
+            st.tx.send_data(bytes::Bytes::from(super::c06::build_record(src, dst, b"app", &payload)), false).map_err(|e| mach(e.to_string()))?;
+            sent = true;
+        }
+        let mut tmp = vec![0u8; 70_000];
+        if let Ok((n, from)) = relay.try_recv_from(&mut tmp) {
+            from_endpoint = Some((tmp[..n].to_vec(), from));
+        }
+        tokio::task::yield_now().await;
+    }
+    let Some((wire, endpoint_addr)) = from_endpoint else {
+        return Err(mk("datagram-not-relayed", "the client's datagram never reached the SOCKS5 relay".into()));
+    };
+    // section 7: RSV RSV FRAG ATYP DST.ADDR DST.PORT DATA
+    let mut want = vec![0u8, 0, 0, if v6 { 4 } else { 1 }];
+    match dst.ip() {
+        std::net::IpAddr::V4(a) => want.extend_from_slice(&a.octets()),
+        std::net::IpAddr::V6(a) => want.extend_from_slice(&a.octets()),
+    }
+    want.extend_from_slice(&dst.port().to_be_bytes());
+    want.extend_from_slice(&payload);
+    if wire != want {
+        let n = want.len().min(24);
+        return Err(mk("wrong-wrapping:to-relay", format!("the relay received {} bytes starting {}, expected {} bytes starting {}", wire.len(), hex::encode(&wire[..wire.len().min(24)]), want.len(), hex::encode(&want[..n]))));
+    }
+    // the relay answers with a wrapped datagram from the destination
+    let answer: Vec<u8> = (0..payload_len.max(1)).map(|i| (i % 13) as u8 + 1).collect();
+    let mut back = want[..want.len() - payload.len()].to_vec();
+    back.extend_from_slice(&answer);
+    let _ = relay.send_to(&back, endpoint_addr).await;
+    let want_rec_len = 4 + 36 + answer.len();
+    let mut got = vec![];
+    let t0 = std::time::Instant::now();
+    while got.len() < want_rec_len && t0.elapsed() < Duration::from_secs(3) {
+        let (b, ended, _) = st.body(20).await;
+        got.extend_from_slice(&b);
+        if ended {
+            break;
+        }
+    }
+    drop(controls);
+    d.task.abort();
+    let expect = trusttunnel::verif_hooks::udp_encode(dst, src, bytes::Bytes::from(answer.clone())).map(|b| b.to_vec()).unwrap_or_default();
+    if got != expect {
+        return Err(mk("wrong-unwrapping:to-client", format!("the client received {} bytes, expected the {}-byte record labelled {dst} -> {src}", got.len(), expect.len())));
+    }
+    Ok("wrapped-and-unwrapped")
+}
+
+fn udp_relay_into(rep: &mut Report) {
+    let mut classes = vec![];
+    let mut n = 0u64;
+    for v6 in [false, true] {
+        for len in [0usize, 1, 1200, 9000] {
+            n += 1;
+            match super::guarded(|| rt::run_real(udp_relay_case(v6, len))) {
+                Ok(Ok(c)) => classes.push(format!("{}:{len}:{c}", if v6 { "v6" } else { "v4" })),
+                Ok(Err(v)) => rep.violation(v),
+                Err(p) => rep.violation(Violation::new("C15:udp-relay:panic", p, json!({"kind":"udp-relay","v6":v6,"payload_len":len}))),
+            }
+        }
+    }
+    rep.add("evaluations", n);
+    rep.sub.push(json!({"sub":"udp-relay","cases":n,"classes":classes,
+        "what":"a _udp2 tunnel through a SOCKS5 upstream (harness-played control connection + UDP relay): the client's datagram reaches the relay wrapped as RFC 1928 section 7 prescribes (IPv4 / IPv6 destination, payload 0..9000 bytes), the relay's wrapped answer reaches the client as a 6.4 record labelled destination -> source"}));
+}
+
 pub fn run(tier: Tier) -> i32 {
     crate::engine::watch::start("C15", tier.name(), Duration::from_secs(120), crate::engine::watch::OnExpiry::Machinery);
     let mut rep = Report::new("C15", tier, "exploration");
@@ -624,10 +735,14 @@ pub fn run(tier: Tier) -> i32 {
     rep.cov("rule", format!("{} dialogues: (A) 8 credential shapes (lengths 1..600, UTF-8, colon in the password) x {{RFC 1929, extended auth}} x 6 destinations (IPv4, IPv6, domain of 1/255/256/300 octets); (B) 30+ server behaviours (each method selection, auth status, reply code 0..9, address type, wrong version/reserved bytes) x truncation at every byte x every 1-cut (+ 2-cuts in thorough) and byte-at-a-time of the server's bytes; distinct = (verdict, method, reply) classes", cs.len()));
     rep.sample(json!({"case": cs[3]}));
     rep.assume("the endpoint is driven through its real accept path over HTTP/2 with forward_protocol=socks5; the SOCKS5 UDP relay wrapping is not exercised here");
+    udp_relay_into(&mut rep);
     rep.finish()
 }
 
 pub fn replay(case: &serde_json::Value) -> Result<(), Violation> {
+    if case["kind"].as_str() == Some("udp-relay") {
+        return rt::run_real(udp_relay_case(case["v6"].as_bool().unwrap_or(false), case["payload_len"].as_u64().unwrap_or(1) as usize)).map(|_| ());
+    }
     let c: Case = serde_json::from_value(case["case"].clone()).map_err(|_| Violation::new("C15:machinery", "bad replay file", json!({})))?;
     run_sync(&c).map(|_| ())
 }
